@@ -409,9 +409,8 @@ class Module(HasAccessibles):
         # Modify units AFTER applying the cfgdict
         mainvalue = self.parameters.get('value')
         if mainvalue:
-            mainunit = mainvalue.datatype.unit
-            if mainunit:
-                self.applyMainUnit(mainunit)
+            # also needed when the main value has no unit: remove the '$' placeholder
+            self.applyMainUnit(mainvalue.datatype.unit)
 
         # 6) check complete configuration of * properties
         if not self.errors:
